@@ -110,6 +110,10 @@ def run(ctx):
                 a[r, c] = e
         if not any(isinstance(x, pe.Obs) for x in a.ravel()):
             a[0, 0] = pe.cov_Obs(float(a[0, 0]), 0.0004, "cz%dx%d" % (i, next(uniq)))
+        if rng.random() < 0.2:
+            # an external input whose mean is written as an integer literal (cov_Obs(2, ...)): still a real number
+            a[0, 0] = pe.cov_Obs(int(rng.choice([1, 2, 3])) + (int(diag) if diag else 0), 0.0004, "ci%dx%d" % (i, next(uniq)))
+            ctx.count("matrix with an integer-literal covariance input at [0,0]")
         return a
 
     def all_obs(a):
